@@ -2060,6 +2060,16 @@ func (ss *ServerSession) initialize(ctx context.Context, params *InitializeParam
 	if params == nil {
 		return nil, fmt.Errorf("%w: \"params\" must be be provided", jsonrpc2.ErrInvalidParams)
 	}
+	// The session speaks the negotiated version from here on. That is not the
+	// requested one when the client asked for a version that this handshake
+	// cannot serve (a newer or an unknown one): the session must then not be
+	// mistaken for one that speaks the requested version.
+	negotiated := negotiatedVersion(params.ProtocolVersion)
+	if negotiated != params.ProtocolVersion {
+		p := *params
+		p.ProtocolVersion = negotiated
+		params = &p
+	}
 	var wasInit bool
 	ss.updateState(func(state *ServerSessionState) {
 		wasInit = state.InitializeParams != nil
@@ -2076,7 +2086,7 @@ func (ss *ServerSession) initialize(ctx context.Context, params *InitializeParam
 	return &InitializeResult{
 		// TODO(rfindley): alter behavior when falling back to an older version:
 		// reject unsupported features.
-		ProtocolVersion: negotiatedVersion(params.ProtocolVersion),
+		ProtocolVersion: negotiated,
 		Capabilities:    s.capabilities(),
 		Instructions:    s.opts.Instructions,
 		ServerInfo:      s.impl,
